@@ -258,7 +258,9 @@ CLAIMED.update({
              "check_expr treats as effects (mutable references, `is` comparisons), how it pushes and pops the stack while walking the HIR, and lambdas' own kinds are read, not decided. "
              "Stage 2 (visits/<shape>): on HIR node shapes (calls with positional / variadic / keyword arguments, method calls, operators, collection literals, type ascriptions, "
              "attribute accesses) check_expr passes every eagerly evaluated child to check_expr on every path, and a call with a procedural callee or method name pushes an effect error "
-             "whenever the context predicate answers 'forbidden' - by induction the traversal reaches every procedure call of an expression tree of those node kinds.",
+             "whenever the context predicate answers 'forbidden' - by induction the traversal reaches every procedure call of an expression tree of those node kinds. "
+             "Stage 3 (block-kind/table): check_def pushes, for every combination of (procedural name, subroutine, constant), the block kind the property's reading gives "
+             "(procedure -> Proc, function -> Func / ConstFunc, any non-subroutine definition -> an instant block, also when its name ends in `!`).",
         note="Trusts rustc's MIR dump, engines/mirsem.py + mirflow.py, z3, the std contract models listed in the evidence, and the invariant that only SideEffectChecker::check pushes Module "
              "(once, first). The encoding is validated per run against the real function on all stacks of depth <= 3 and a sample of deeper ones (cargo test on the scratch copy).",
         design="0b/C22"),
@@ -302,6 +304,26 @@ CLAIMED.update({
              "contract models for Vec / slice / Option / iterator adaptors. The encoding is validated per run: ~40 programs (each shape with every pure/effectful assignment of its "
              "children) are lowered by the real front end and the real is_impure must answer what the symbolic execution predicts (cargo test on the scratch copy).",
         design="0b/C12"),
+})
+
+
+CLAIMED.update({
+    "C13": dict(
+        engine="mirsem+mirflow",
+        technique="symbolic execution of the rustc MIR of PyCodeGenerator::emit_binop_instr_307 / _309 / _311 with the operator token as a solver variable over enum TokenKind; the "
+                  "(opcode, oparg) written on each path is compared with an oracle generated at check time from the installed CPython 3.7-3.11 interpreters (dis.opmap, dis.cmp_op, "
+                  "dis._nb_ops); counterexamples and the encoding are replayed on a real PyCodeGenerator per target version",
+        category="other",
+        text="Kernel-level partial claim: for each supported target version 3.7 - 3.11 and each binary operator the generator compiles to an instruction (+ - * / // ** % and or ^, the "
+             "six comparisons, is / is not), the instruction written for that target is the opcode whose name denotes the operator in that version's interpreter, with the oparg that "
+             "interpreter assigns to the operator (index in dis.cmp_op; for 3.11 index in dis._nb_ops; IS_OP 0 / 1 from 3.9 on); the dispatch of emit_binop_instr by target minor "
+             "version is read from the source. Stage 2 (engine mirflow, dataflow by congruence): CodeObj::exec hands cfg.py_command to python_util::exec_pyc_code, which forwards it "
+             "as exec_pyc's py_command, i.e. `erg run` starts the interpreter selected by --py-command. All other version-specific emission (calls, closures, with-blocks, jumps, "
+             "exception tables, line tables), that the bytecode loads, and the behaviour of whole programs under each interpreter are not decided.",
+        note="Trusts rustc's MIR dump, engines/mirsem.py + mirflow.py, z3, the installed interpreters as the oracle, and the opcode / BinOpCode numbers read from erg_common's "
+             "sources as named constants (that those numbers are the interpreters' is C16). Validated per run: for all 100 (version, operator) pairs the bytes a real "
+             "PyCodeGenerator appends are the ones the encoding predicts. `in` / `notin` never reach these tables (desugared to Erg's contains operator).",
+        design="0b/C13"),
 })
 
 
